@@ -145,6 +145,17 @@ def c13_part(chk, quick):
             alpha = rnd.randint(1, 4)
             seqs.append([rnd.randint(1, alpha) for _ in range(n)])
         cases.append(dict(m=rnd.choice([1, 2, 3, 4, 8]), l=rnd.choice([1, 2, 3]), seqs=seqs))
+    # a long sequence with many distinct elements first, then short ones that share elements with it (state sized by the
+    # earlier call must not leak: counters, buffers, capacities)
+    for _ in range(4 if quick else 30):
+        big = list(range(1, rnd.randint(200, 600)))
+        rnd.shuffle(big)
+        seqs = [big]
+        for _ in range(3):
+            n = rnd.randint(3, 10)
+            seqs.append([rnd.choice(big[:40]) for _ in range(n)])
+        seqs.append(big[:50])
+        cases.append(dict(m=rnd.choice([2, 4, 16]), l=rnd.choice([1, 2, 3]), seqs=seqs))
     return record_and_validate(chk, cases, "c13-selfclearing", seed=chk.seed + 13)
 
 
